@@ -255,7 +255,25 @@ impl<'a> DiagnosticContext<'a> {
     }
 
     pub fn get_diagnostics(self) -> Vec<Diagnostic> {
-        self.diagnostics
+        // the same finding can be reached twice (a malformed annotation whose name is visited
+        // by two passes): report it once, keeping the first
+        let mut seen = std::collections::HashSet::new();
+        let mut diagnostics = self.diagnostics;
+        diagnostics.retain(|d| {
+            let key = (
+                d.code.clone(),
+                (d.range.start.line, d.range.start.character),
+                (d.range.end.line, d.range.end.character),
+                d.message.clone(),
+                format!("{:?}", d.severity),
+            );
+            match &d.data {
+                // diagnostics carrying data (quick-fix payloads) are only equal if that is equal too
+                Some(data) => seen.insert((key, data.to_string())),
+                None => seen.insert((key, String::new())),
+            }
+        });
+        diagnostics
     }
 
     pub fn is_checker_enable_by_code(&self, code: &DiagnosticCode) -> bool {
